@@ -274,6 +274,29 @@ func (p *Prog) boundedSize(f *ssa.Function, v ssa.Value, depth int) (bool, strin
 		if b, ok := x.Call.Value.(*ssa.Builtin); ok && (b.Name() == "len" || b.Name() == "cap" || b.Name() == "min") {
 			return true, "a length"
 		}
+		if x.Call.IsInvoke() {
+			// in-package interface: every implementation returns a bounded value
+			impls := p.Callees(x)
+			all := len(impls) > 0
+			for _, g := range impls {
+				if g.Pkg != p.RootSSA || len(g.Blocks) == 0 {
+					all = false
+					continue
+				}
+				for _, ret := range returnsOf(g) {
+					if len(ret.Results) == 0 {
+						all = false
+						continue
+					}
+					if ok, _ := p.boundedSize(g, ret.Results[0], depth+1); !ok {
+						all = false
+					}
+				}
+			}
+			if all {
+				return true, "bounded result of every implementation of " + x.Call.Method.Name()
+			}
+		}
 		if g := x.Call.StaticCallee(); g != nil {
 			s := g.String()
 			if strings.Contains(s, "encoding/binary") && (strings.HasSuffix(s, "Uint16")) {
@@ -336,7 +359,12 @@ func (p *Prog) boundedSize(f *ssa.Function, v ssa.Value, depth int) (bool, strin
 	case *ssa.UnOp:
 		if x.Op == token.MUL {
 			if fr, ok := asLoadedField(x); ok {
-				return true, "a field of an already decoded object (" + fr.Field + ")"
+				// only narrow fields are bounded by their type; a 32/64-bit field of a decoded object (an element
+				// count, a map's Count) holds whatever the register said
+				if b, isB := x.Type().Underlying().(*types.Basic); isB && (b.Kind() == types.Uint8 || b.Kind() == types.Uint16 || b.Kind() == types.Int8 || b.Kind() == types.Int16 || b.Kind() == types.Bool) {
+					return true, "a narrow field of an already decoded object (" + fr.Field + ")"
+				}
+				return false, "a field of a decoded object (" + fr.Field + ") whose value comes from the register and is not bounded by its type"
 			}
 		}
 	case *ssa.Parameter:
